@@ -449,6 +449,8 @@ class Program:
         if ci.kind == 'trait':
             if not self._is_crate_type(ci.self_ty) and not self._is_crate_type(ci.trait):
                 return None
+            if ci.self_ty.lstrip().startswith('&') and not self._is_crate_type(ci.trait):
+                return None      # std's blanket impl for references (it derefs and forwards)
             cands = self.index.get((ci.self_last, ci.trait_last, ci.method))
             if not cands:
                 return None
